@@ -275,6 +275,10 @@ func AllSites(d string, s gm.Schema) []Site {
 				add(EditRef{Kind: "enum-drop", Obj: e.Name}, "enum:"+e.Name)
 			}
 			add(EditRef{Kind: "enum-add-value", Obj: e.Name, Arg: "zz_value"}, "enum:"+e.Name)
+			// a value inserted before the first or between two values: planned with a BEFORE / AFTER position clause
+			for pos := range e.Values {
+				add(EditRef{Kind: "enum-insert-value", Obj: e.Name, Arg: fmt.Sprint(pos)}, "enum:"+e.Name)
+			}
 		}
 	}
 	for _, t := range s.Tables {
